@@ -49,6 +49,7 @@ void sym_inputs(void)
 #ifdef REPLAY
 #include "replay_inputs.inc"
 #else
+  SYM_FEED();
   SYM_ARR(in); SYM_ARR(ufail);
 #endif
 }
